@@ -207,9 +207,86 @@ def corr_problems(ctx: Ctx, b: str, d: dict, prog: list, user_input: list[int], 
     return []
 
 
+def gen_bunch_case(rng) -> dict:
+    """MANY photons on few modes (lossless): the occupation factorials of the normalisation leave the 64-bit range
+    (15!*12! > 2^63, 13!*13! > 2^64) long before the computation becomes expensive for SLOS (28 output patterns for
+    27 photons on two modes).  The exact model's SLOS recursion is compared with the implementation's SLOS backend,
+    and - while a permanent of that size is still cheap - with the permanent backend (the two agree by theorem
+    C04.backends_agree)."""
+    from core import CIRCLE, PYTH
+
+    n = rng.choice([2, 2, 2, 3])
+    prog = [["new", "c1", n]]
+    for _ in range(rng.randint(0, 4)):
+        r = rng.random()
+        if r < 0.6:
+            m1, m2 = rng.sample(range(n), 2)
+            c, s_ = rng.choice(PYTH)
+            prog.append(cg.op_bs("c1", m1, m2, c, s_, rng.choice(["Rx", "H"])))
+        else:
+            prog.append(cg.op_ps("c1", rng.randrange(n), rng.choice(CIRCLE)))
+    hi = 30 if n == 2 else 14
+    tot = rng.choice([rng.randint(6, hi), rng.randint(12, hi), rng.choice([13, 14, 20, 21, 22, 26, 27])])
+    tot = min(tot, hi)
+    shape = rng.choice(["one-mode", "split", "split", "random"])
+    if shape == "one-mode":
+        st = [0] * n
+        st[rng.randrange(n)] = tot
+    elif shape == "split":
+        a = rng.randint(tot // 3, tot - tot // 3)
+        st = [0] * n
+        i, j = rng.sample(range(n), 2)
+        st[i], st[j] = a, tot - a
+    else:
+        st = fg.rand_state(rng, n, tot)
+    return {"kind": "bunch", "prog": prog, "input": st}
+
+
+def run_bunch(ctx: Ctx, case: dict) -> list[str]:
+    probs: list[str] = []
+    pool = fg.build_impl(case["prog"])
+    c = pool.get("c1")
+    if c is None or c.input_modes != len(case["input"]):
+        return probs
+    eps = get_eps()
+    tot = sum(case["input"])
+    n = c.n_modes
+    nbasis = math.comb(tot + n - 1, n - 1)
+    m = model_dist(ctx, case["prog"], case["input"], "slos", eps)
+    if "error_class" in m:
+        return [f"corr[slos]: model refuses the input ({m['error_class']})"]
+    md = {tuple(s_): float(Fraction(p)) for s_, p in m["pdist"]}
+    backends = ["slos"] + (["permanent"] if tot <= 14 else [])
+    for b in backends:
+        try:
+            d = emulator.Sampler(c, lw.State(case["input"]), backend=b).probability_distribution
+        except Exception as e:  # noqa: BLE001
+            return [f"oracle: Sampler(backend={b}).probability_distribution raised {exc_class(e)} for the valid input "
+                    f"{case['input']}: {str(e)[:80]}"]
+        d = {tuple(s_.s): float(p) for s_, p in d.items()}
+        tot_p = sum(d.values())
+        if any(not (p >= 0) for p in d.values()):
+            probs.append(f"oracle[{b}]: negative or non-finite probability for input {case['input']}")
+        if not (1 - nbasis * float(eps) - 1e-9 <= tot_p <= 1 + 1e-9):
+            probs.append(f"oracle[{b}]: distribution sums to {tot_p!r} for input {case['input']}")
+        for s_, p in d.items():
+            if sum(s_) != tot and p > 1e-12:
+                probs.append(f"oracle[{b}]: lossless circuit, {tot} photons injected, but pattern {list(s_)} has probability {p:.3g}")
+                break
+        if probs:
+            return probs
+        for s_ in set(d) | set(md):
+            pi, pm = d.get(s_, 0.0), md.get(s_, 0.0)
+            if abs(pi - pm) > 2e-9 + 1e-9 * max(pi, pm):
+                return [f"corr[{b}]: P{list(s_)} impl={pi:.15g} model={pm:.15g} for input {case['input']} (many photons)"]
+    return probs
+
+
 def run_case(ctx: Ctx, case: dict) -> list[str]:
     if case.get("kind") == "hist":
         return run_scenario(ctx, case)
+    if case.get("kind") == "bunch":
+        return run_bunch(ctx, case)
     probs: list[str] = []
     pool = fg.build_impl(case["prog"])
     c = pool.get("c1")
@@ -1430,6 +1507,23 @@ def run(ctx: Ctx) -> None:
     import random as pyrandom
 
     run_hist(ctx, pyrandom.Random(f"C04-hist-{ctx.seed}"))
+    brng = pyrandom.Random(f"C04-bunch-{ctx.seed}")
+    for k in range(ctx.n(40, 600)):
+        if ctx.out_of_time():
+            break
+        case = gen_bunch_case(brng)
+        probs = run_case(ctx, case)
+        ctx.count("bunch:photons>=13" if sum(case["input"]) >= 13 else "bunch:photons<13")
+        ctx.count(f"bunch:modes={case['prog'][0][2]}")
+        ctx.case(json.dumps(case), True, sample=case if k == 0 else None)
+        if probs:
+            ctx.count("cases_with_problems")
+            oracle = [p for p in probs if p.startswith("oracle")]
+            if oracle:
+                ctx.violation(oracle[0], {"case": case, "problems": probs},
+                              sig={"kind": "many-photons", "backend": "permanent" if "permanent" in oracle[0] else "slos"})
+            else:
+                ctx.disagreement(probs[0], {"case": case, "problems": probs})
     done = 0
     while done < N and not ctx.out_of_time():
         case = gen_case(ctx, rng)
